@@ -335,11 +335,20 @@ func VerifC10_Flow() {
 		n.challengedThisCall, n.firstWasCached = false, false
 		hostName := []string{"rega.example", "regb.example"}[verifChoose("host", 2)]
 		h := n.hosts[hostName]
-		n.required, _ = c10scope("required")
-		n.want, _ = c10scope("want")
-		n.tokMode = verifChoose("tokenServer", 6)
-		n.expiresIn = []int{0, 1, 3}[verifChoose("expiresIn", 3)]
-		n.rejectFresh = verifBool("rejectFresh")
+		if verifParam("trim", 0) == 1 {
+			// reduced menus for multi-call histories
+			n.required = ParseScope(c10scopes[1+verifChoose("required", 2)])
+			n.want = ParseScope("")
+			n.tokMode = verifChoose("tokenServer", 2)
+			n.expiresIn = []int{1, 3}[verifChoose("expiresIn", 2)]
+			n.rejectFresh = false
+		} else {
+			n.required, _ = c10scope("required")
+			n.want, _ = c10scope("want")
+			n.tokMode = verifChoose("tokenServer", 6)
+			n.expiresIn = []int{0, 1, 3}[verifChoose("expiresIn", 3)]
+			n.rejectFresh = verifBool("rejectFresh")
+		}
 		// does the transport hold a cached, unexpired, sufficient token for this host?
 		now := time.Now()
 		haveCached := false
